@@ -660,6 +660,7 @@ func clip(b []byte, n int) []byte {
 
 func c04Live(r *Run) {
 	const P = "C04"
+	r.LeaveCloseFamilyToC16 = true
 	T := r.T
 	v := r.DrawVersion()
 	comp := r.DrawCompression(v)
@@ -869,6 +870,10 @@ func c04Live(r *Run) {
 		return
 	}
 	r.Nontrivial = len(sent) > 0
+	r.checkPanics()
+	if r.CloseFamilyPanics > 0 {
+		return
+	}
 	if r.S.HugeAllocs > 0 {
 		// a hostile count asked for more than the allocation guard allows: in production the process
 		// would try to allocate it; memory exhaustion is not judged (DESIGN.md §5 C04)
